@@ -1566,3 +1566,161 @@ theorem rt_inv {T : List Desc} (hT : TableOK T) : ∀ n, Inv (rt T n)
     exact rtStep_inv hT (rt_inv hT n)
 
 end KinModel.Marshal
+
+namespace KinModel.Marshal
+
+/-! ### the result of the deep round trip does not depend on the fuel: more fuel never changes a value -/
+
+def Below (f f' : Shape → JV → Res JV) : Prop := ∀ s v r, f s v = .ok r → f' s v = .ok r
+
+theorem wrap_mono {α β : Type} (c : α → β) (a a' : Res α) (h : ∀ x, a = .ok x → a' = .ok x) (b : β)
+    (hb : a.wrap c = .ok b) : a'.wrap c = .ok b := by
+  obtain ⟨x, hx, rfl⟩ := wrap_ok _ _ _ hb
+  simp only [h x hx, Res.wrap]
+
+theorem entryStep_mono {T : List Desc} {f f' : Shape → JV → Res JV} (h : Below f f') (s : Shape) (v r : JV)
+    (hr : entryStep T f s v = .ok r) : entryStep T f' s v = .ok r := by
+  cases v with
+  | null =>
+    cases s with
+    | ref w => exact hr
+    | kind k => exact h _ _ r hr
+    | strLeaf => exact h _ _ r hr
+    | _ => exact hr
+  | _ => exact h _ _ r hr
+
+theorem mapKV_mono (g g' : String → JV → Res JV) (kvs kvs1 : Obj) (h : mapKV g kvs = .ok kvs1)
+    (hg : ∀ k x y, g k x = .ok y → g' k x = .ok y) : mapKV g' kvs = .ok kvs1 := by
+  unfold mapKV at h ⊢
+  apply mapR_congr_ok _ _ kvs kvs1 h
+  intro kv _ y hy
+  exact wrap_mono _ _ _ (fun x hx => hg kv.1 kv.2 x hx) y hy
+
+theorem marshalDeep_mono {f f' : Shape → JV → Res JV} (h : Below f f') (d : Desc) (r : Rec) (o : Obj)
+    (ho : marshalDeep f d r = .ok o) : marshalDeep f' d r = .ok o := by
+  unfold marshalDeep at ho ⊢
+  split
+  · rename_i hc; simp only [hc, if_true] at ho; exact ho
+  · rename_i hc
+    simp only [hc] at ho
+    apply wrap_mono _ _ _ _ o ho
+    intro fs hfs
+    apply mapR_congr_ok _ _ _ fs hfs
+    intro m _ y hy
+    exact wrap_mono _ _ _ (fun x hx => h _ _ x hx) y hy
+
+theorem rtStep_mono {T : List Desc} {f f' : Shape → JV → Res JV} (h : Below f f') : Below (rtStep T f) (rtStep T f') := by
+  intro s v r hr
+  cases s with
+  | leaf => exact hr
+  | strLeaf => exact hr
+  | unknown t => exact hr
+  | types => exact hr
+  | addProps =>
+    simp only [rtStep] at hr ⊢
+    cases v with
+    | obj kvs =>
+      cases kvs with
+      | nil => exact hr
+      | cons kv rest => simp only [stepAddProps] at hr ⊢; exact h _ _ r hr
+    | _ => exact hr
+  | list s =>
+    simp only [rtStep] at hr ⊢
+    cases v with
+    | arr xs =>
+      simp only [stepList] at hr ⊢
+      apply wrap_mono _ _ _ _ r hr
+      intro ys hys
+      exact mapR_congr_ok _ _ xs ys hys (fun x _ y hy => h _ _ y hy)
+    | _ => exact hr
+  | map s =>
+    simp only [rtStep] at hr ⊢
+    cases v with
+    | obj kvs =>
+      simp only [stepMap] at hr ⊢
+      apply wrap_mono _ _ _ _ r hr
+      intro ys hys
+      exact mapKV_mono _ _ kvs ys hys (fun _ x y hy => h _ _ y hy)
+    | _ => exact hr
+  | pmap s =>
+    simp only [rtStep] at hr ⊢
+    cases v with
+    | obj kvs =>
+      simp only [stepPMap] at hr ⊢
+      apply wrap_mono _ _ _ _ r hr
+      intro ys hys
+      exact mapKV_mono _ _ kvs ys hys (fun _ x y hy => entryStep_mono h s x y hy)
+    | _ => exact hr
+  | ref w =>
+    simp only [rtStep] at hr ⊢
+    cases v with
+    | obj kvs =>
+      simp only [stepRef] at hr ⊢
+      cases hd : findDesc T w with
+      | none => simp only [hd] at hr ⊢; exact hr
+      | some d =>
+        simp only [hd] at hr ⊢
+        cases hrs : refString kvs with
+        | some t => simp only [hrs] at hr ⊢; exact hr
+        | none => simp only [hrs] at hr ⊢; exact h _ _ r hr
+    | _ => exact hr
+  | maplike w =>
+    simp only [rtStep] at hr ⊢
+    cases v with
+    | obj kvs =>
+      simp only [stepMaplike] at hr ⊢
+      cases hd : findDesc T w with
+      | none => simp only [hd] at hr ⊢; exact hr
+      | some d =>
+        simp only [hd] at hr ⊢
+        apply wrap_mono _ _ _ _ r hr
+        intro ys hys
+        apply mapKV_mono _ _ _ ys hys
+        intro k x y hy
+        by_cases he : isExtKey k = true
+        · simp only [he, if_true] at hy ⊢; exact hy
+        · simp only [he] at hy ⊢; exact entryStep_mono h _ x y hy
+    | _ => exact hr
+  | kind k =>
+    simp only [rtStep] at hr ⊢
+    unfold stepKind at hr ⊢
+    cases hd : findDesc T k with
+    | none => simp only [hd] at hr ⊢; exact hr
+    | some d =>
+      simp only [hd] at hr ⊢
+      cases ht : d.template with
+      | alias => simp only [ht] at hr ⊢; exact h _ _ r hr
+      | struct =>
+        simp only [ht] at hr ⊢
+        cases v with
+        | obj kvs =>
+          simp only at hr ⊢
+          apply wrap_mono _ _ _ _ r hr
+          intro o ho
+          exact marshalDeep_mono h d _ o ho
+        | _ => exact hr
+      | ref => simp only [ht] at hr ⊢; exact hr
+      | maplike => simp only [ht] at hr ⊢; exact hr
+      | namedMap => simp only [ht] at hr ⊢; exact hr
+      | special => simp only [ht] at hr ⊢; exact hr
+
+theorem rt_succ_mono (T : List Desc) : ∀ n, Below (rt T n) (rt T (n + 1))
+  | 0 => by intro s v r h; simp [rt] at h
+  | n + 1 => by
+    have e1 : rt T (n + 1) = rtStep T (rt T n) := by funext s v; rfl
+    have e2 : rt T (n + 2) = rtStep T (rt T (n + 1)) := by funext s v; rfl
+    rw [e1, e2]
+    exact rtStep_mono (rt_succ_mono T n)
+
+theorem rt_mono (T : List Desc) (n m : Nat) (h : n ≤ m) : Below (rt T n) (rt T m) := by
+  induction m with
+  | zero =>
+    have : n = 0 := by omega
+    subst this; intro s v r hr; exact hr
+  | succ m ih =>
+    by_cases e : n = m + 1
+    · subst e; intro s v r hr; exact hr
+    · intro s v r hr
+      exact rt_succ_mono T m s v r (ih (by omega) s v r hr)
+
+end KinModel.Marshal
